@@ -269,6 +269,9 @@ func TestVerifC04Plugin(t *testing.T) {
 	}
 	defer close(su.stop)
 	for idx := 0; idx < n; idx++ {
+		if lost >= 3 {
+			break // the informer path is broken (reported above): every further event would only wait for its timeout
+		}
 		r := h.Begin(idx)
 		if r == nil {
 			continue
@@ -527,16 +530,19 @@ func TestVerifC04Plugin(t *testing.T) {
 		}
 		// wait until the informer has delivered the event to the gang cache
 		await := func(what string, f func() bool) bool {
+			if lost >= 3 {
+				return false // already reported; do not wait for every further timeout
+			}
 			t0 := time.Now()
 			defer func() { awaitDur += time.Since(t0) }()
-			deadline := time.Now().Add(5 * time.Second)
+			deadline := time.Now().Add(10 * time.Second)
 			for i := 0; ; i++ {
 				if f() {
 					return true
 				}
 				if time.Now().After(deadline) {
 					lost++
-					h.Fail("C04:plugin-informer-event-not-applied", "%s did not reach the gang cache through the informer within 5s", what)
+					h.Fail("C04:plugin-informer-event-not-applied", "%s did not reach the gang cache through the informer within 10s", what)
 					return false
 				}
 				if i < 200 {
